@@ -2,7 +2,7 @@
    non-vacuity) and the declarative reading of the monitor. *)
 From Coq Require Import List ZArith NArith Bool Lia.
 From PC.Base Require Import Assoc.
-From PC.Sup Require Import Model Monitors Check Sim ObsFacts RelC03 LemC03.
+From PC.Sup Require Import Model Monitors Check Sim ObsFacts RelC03 RelC03b LemC03.
 Import ListNotations.
 Open Scope N_scope.
 
@@ -28,16 +28,23 @@ Lemma c03_refuted_in_commit_window :
   escapes_C03 c03_cs evs_c03_commit = false.
 Proof. split; vm_compute; reflexivity. Qed.
 
-(* The windows alone are not enough (findings).  (1) ShutDownProject completes before Run() is called:
-   Run() then launches everything. *)
+(* The windows alone are not enough (finding): ShutDownProject completes before Run() is called; Run() then
+   launches everything.  Accepted, no window flag at all, monitor false: part (1) of escapes_C03 is needed. *)
 Definition evs_c03_run_after : list (tid * event) := [
   (5, EApiBegin OpShutdown); (5, EShutdownCall); (5, EShutdownBegin); (5, EShutdownOrder []); (5, EShutdownEnd);
   (5, EShutdownUnlocked); (5, EApiReturn true);
   (1, EApiBegin OpRun); (1, ERegGet 0 None); (1, ENewInst 1 0); (1, EState 1 SPending); (1, ERegAdd 1 0); (1, ESpawn 1 0);
   (2, EBegin 1); (1, ERunSpawned); (2, ERunChecked false); (2, EStarted); (2, EState 1 SRunning); (2, ELaunch true)].
-(* (2) a StartProcess call overlaps the shutdown: it has looked at the registry and created its instance
-   before the shutdown took its snapshot, registers it when the shutdown has released the registry lock,
-   and the command is launched after ShutDownProject returned. *)
+
+Lemma c03_windows_not_enough :
+  (exists s, accept (init c03_cs false) evs_c03_run_after = Some s) /\
+  any_window (final_obs c03_cs evs_c03_run_after) = false /\ holds_C03 c03_cs evs_c03_run_after = false.
+Proof. repeat split; try (eexists; vm_compute; reflexivity); vm_compute; reflexivity. Qed.
+
+(* A StartProcess call that overlaps the shutdown (it has looked at the registry and created its instance before
+   the shutdown took its snapshot, registers it when the shutdown has released the registry lock, the command is
+   launched after ShutDownProject returned) is inside the theorem: no window, no escape (the instance is
+   "excused"), and the monitor - which allows such a launch since clause (b) was weakened - holds. *)
 Definition evs_c03_start_overlap : list (tid * event) := [
   (6, EApiBegin (OpStart 0)); (6, ERegGet 0 None); (6, EStartChecked 0 false); (6, ENewInst 1 0); (6, EState 1 SPending);
   (5, EApiBegin OpShutdown); (5, EShutdownCall); (5, EShutdownBegin); (5, EShutdownOrder []); (5, EShutdownEnd);
@@ -45,11 +52,10 @@ Definition evs_c03_start_overlap : list (tid * event) := [
   (6, ERegAdd 1 0); (6, ESpawn 1 0); (6, EApiReturn true);
   (2, EBegin 1); (2, ERunChecked false); (2, EStarted); (2, EState 1 SRunning); (2, ELaunch true)].
 
-Lemma c03_windows_not_enough :
-  (exists s, accept (init c03_cs false) evs_c03_run_after = Some s) /\
-  any_window (final_obs c03_cs evs_c03_run_after) = false /\ holds_C03 c03_cs evs_c03_run_after = false /\
+Lemma c03_start_overlap_covered :
   (exists s, accept (init c03_cs false) evs_c03_start_overlap = Some s) /\
-  any_window (final_obs c03_cs evs_c03_start_overlap) = false /\ holds_C03 c03_cs evs_c03_start_overlap = false.
+  W_C03 (final_obs c03_cs evs_c03_start_overlap) = false /\ escapes_C03 c03_cs evs_c03_start_overlap = false /\
+  holds_C03 c03_cs evs_c03_start_overlap = true.
 Proof. repeat split; try (eexists; vm_compute; reflexivity); vm_compute; reflexivity. Qed.
 
 (* non-vacuity: Run, launch, ShutDownProject (signal, exit, end), Run returns, then an explicit StartProcess
@@ -101,7 +107,8 @@ Theorem c03_declarative : forall cs ord evs s,
        o_alive (oi_get o i) = false /\ is_running_status (r_status (on_get o (o_nm (oi_get o i)))) = false) /\
   (forall pre th post i, evs = pre ++ (th, ELaunch true) :: post ->
      let o := final_obs cs pre in
-     get th (o_th o) = Some i -> (0 < o_sd_done o)%nat -> In i (o_after_sd_spawn o)).
+     get th (o_th o) = Some i -> (0 < o_sd_done o)%nat ->
+     In i (o_after_sd_spawn o) \/ (o_byapi (oi_get o i) = true /\ o_insnap (oi_get o i) = false)).
 Proof.
   intros cs ord evs s Hacc HW Hesc. pose proof (C03_partial_lemma cs ord evs s Hacc HW Hesc) as Hh. unfold holds_C03 in Hh.
   split.
@@ -109,5 +116,7 @@ Proof.
     fold o in Hm. unfold snap_of in Hi. rewrite forallb_forall in Hm. specialize (Hm i Hi).
     apply andb_true_iff in Hm. destruct Hm as [H1 H2]. apply negb_true_iff in H1, H2. auto.
   - intros pre th post i E o Hth Hsd. pose proof (holds_at _ _ _ _ _ _ Hh E) as Hm. unfold mon_C03 in Hm. cbn [fst snd ev_inst] in Hm.
-    fold o in Hm. rewrite Hth in Hm. apply Nat.ltb_lt in Hsd. rewrite Hsd in Hm. now apply memN_In.
+    fold o in Hm. rewrite Hth in Hm. apply Nat.ltb_lt in Hsd. rewrite Hsd in Hm. apply orb_true_iff in Hm.
+    destruct Hm as [Hm|Hm]; [left; now apply memN_In|right]. apply andb_true_iff in Hm. destruct Hm as [H1 H2].
+    apply negb_true_iff in H2. auto.
 Qed.
